@@ -410,6 +410,9 @@ func c20Mutants(r *vlib.Run, id string, m *gen.Model, anch map[string]anchorInfo
 	if withEnumExt {
 		ms = append(ms, enumExtMutants()...)
 	}
+	if syntax == "proto2" {
+		ms = append(ms, reqMutants(target.GetPackage())...)
+	}
 	for _, mu := range ms {
 		mid := id + "/" + mu.ID()
 		if !r.Want(mid) {
